@@ -120,7 +120,12 @@ Proof.
   destruct o; cbn [step]; try apply decay_refl;
     try (new_flows_tac s decay_fresh_grant ltac:(apply decay_refl); exact FGfact).
   - unfold authorize. destruct (cf_par_enforced cfg); [apply decay_refl|].
-    destruct (clients s (az_client a)) as [cl|]; [|apply decay_refl]. apply decay_authorize_core.
+    destruct (clients s (az_client a)) as [cl|]; [|apply decay_refl].
+    destruct (az_rtype a); [apply decay_authorize_core| |].
+    + destruct (authorize_implicit_effect cfg s cl a) as [Ha [Hr [_ [_ [_ [_ [_ [_ [Hold _]]]]]]]]].
+      intros k Hk. rewrite Ha, Hr. destruct (Hold k Hk) as [Hc _]. rewrite Hc. auto.
+    + destruct (authorize_hybrid_effect cfg s cl a) as [Ha [Hr [_ [_ [_ [_ [_ [_ [Hold _]]]]]]]]].
+      intros k Hk. rewrite Ha, Hr. destruct (Hold k Hk) as [Hc _]. rewrite Hc. auto.
   - unfold redeem.
     destruct auth as [c|]; [|apply decay_refl].
     destruct (clients s c) as [cl|]; [|apply decay_refl].
